@@ -44,6 +44,7 @@ the numerical guards of the EM routine.  They are used for *attribution* only:
     ``no_umax_probe``).
 """
 
+import os
 import math
 import random
 from fractions import Fraction
@@ -780,16 +781,8 @@ def check_determinism(case, ctx):
             lambda: "the same HypergraphMT object fitted twice with seed %d returns different "
             "results (log-likelihoods %r and %r)" % (case["seed"], out[1][2], float(l3)),
             key="refit-differs")
-    # ... and once more with ANOTHER seed: what the earlier call handed out stays what it was
-    kept_u, kept_w = u3, w3
-    copy_u, copy_w = np.array(u3, copy=True), np.array(w3, copy=True)
-    with threadpoolctl.threadpool_limits(limits=1):
-        model.fit(h, K=case["K"], seed=case["seed"] + 1, normalizeU=case["normalizeU"],
-                  baseline_r0=case["baseline_r0"])
-    require(np.array_equal(np.asarray(kept_u), copy_u) and np.array_equal(np.asarray(kept_w), copy_w),
-            lambda: "the arrays returned by HypergraphMT.fit(seed=%d) changed when the same model "
-            "was fitted again with seed %d" % (case["seed"], case["seed"] + 1),
-            key="earlier-result-overwritten")
+    # (whether the arrays an earlier call handed out survive a later fit of the same object with
+    # another seed -- buffers reused between calls -- is not part of the statement: not judged)
     (u1, w1, l1, t1), (u2, w2, l2, t2) = out
     require(u1.shape == u2.shape and np.array_equal(u1, u2),
             lambda: "two fits with seed %d on fresh objects (global RNG states differ) return different u:\n%r\n%r"
@@ -904,8 +897,12 @@ def check_hysc_large(case, ctx):
 
 def cross_digest(case):
     h = build(case)
+    # the order in which the input lists its nodes and hyperedges in this interpreter (the
+    # incidence matrix follows it; the order of a listing is nobody's promise)
+    listing = [repr(list(h.get_nodes())), repr([tuple(e) for e in h.get_edges()])]
     model, u, w, maxL, ev = run_mt(case, h)
-    return {"u": np.asarray(u, dtype=float).tolist(), "w": np.asarray(w, dtype=float).tolist(),
+    return {"listing": listing,
+            "u": np.asarray(u, dtype=float).tolist(), "w": np.asarray(w, dtype=float).tolist(),
             "maxL": float(maxL)}
 
 
@@ -921,8 +918,16 @@ def check_cross_process(case, ctx):
     from ..common import in_child
     nodes, edges, covered = abstract(case)
     classify(case, ctx, nodes, edges, covered)
+    if os.environ.get("PYTHONHASHSEED") == str(case["hashseed"]):
+        ctx.label("this interpreter already runs with the child's hash seed (not judged)")
+        return
     here = cross_digest(case)
     there = in_child("hgxverif.props.c17", "cross_digest", case, case["hashseed"])
+    if here["listing"] != there["listing"]:
+        # the container lists the same content in another order there: sums run in another
+        # order, which the estimator is not to blame for
+        ctx.label("input listed in another order by the other interpreter (not judged)")
+        return
     require(here == there,
             lambda: "HypergraphMT.fit with seed %d returns log-likelihood %r here and %r in an "
                     "interpreter started with PYTHONHASHSEED=%d (u equal: %s, w equal: %s)"
